@@ -122,6 +122,32 @@ impl QueryEngine {
         operation().await
     }
 
+    /// Register `metrics` for the given chunk paths and plan `sql` against it while the
+    /// registration lock is still held.
+    ///
+    /// Planning resolves the table name to the registered provider, so the returned
+    /// DataFrame is bound to this request's chunk set; a concurrent request that re-registers
+    /// `metrics` afterwards cannot change what it reads. The lock is released before the
+    /// statement executes, so slow queries do not block other requests.
+    pub async fn plan_on_chunks(&self, chunk_paths: &[String], sql: &str) -> Result<DataFrame> {
+        let _guard = self.metrics_table_query_lock.lock().await;
+        self.register_metrics_table_for_chunks_locked(chunk_paths)
+            .await?;
+        let planned = self.plan_sql(sql).await;
+        drop(_guard);
+        planned
+    }
+
+    /// Execute `sql` over exactly the given chunks (see [`Self::plan_on_chunks`]).
+    pub async fn execute_on_chunks(
+        &self,
+        chunk_paths: &[String],
+        sql: &str,
+    ) -> Result<Vec<RecordBatch>> {
+        let df = self.plan_on_chunks(chunk_paths, sql).await?;
+        Ok(df.collect().await?)
+    }
+
     /// Register the logical `metrics` table over a set of chunk paths.
     ///
     /// This resolves the model mismatch between SQL queries (`FROM metrics`) and
@@ -276,8 +302,31 @@ impl QueryEngine {
         tenant_id: &str,
         index_controller: Arc<crate::adaptive_index::AdaptiveIndexController>,
     ) -> Result<Vec<RecordBatch>> {
-        // 1. Analyze query for filter predicates
         let df = self.plan_sql(sql).await?;
+        self.execute_planned_with_indexes(df, tenant_id, index_controller)
+            .await
+    }
+
+    /// Index-aware execution over exactly the given chunks (see [`Self::plan_on_chunks`]).
+    pub async fn execute_with_indexes_on_chunks(
+        &self,
+        chunk_paths: &[String],
+        sql: &str,
+        tenant_id: &str,
+        index_controller: Arc<crate::adaptive_index::AdaptiveIndexController>,
+    ) -> Result<Vec<RecordBatch>> {
+        let df = self.plan_on_chunks(chunk_paths, sql).await?;
+        self.execute_planned_with_indexes(df, tenant_id, index_controller)
+            .await
+    }
+
+    async fn execute_planned_with_indexes(
+        &self,
+        df: DataFrame,
+        tenant_id: &str,
+        index_controller: Arc<crate::adaptive_index::AdaptiveIndexController>,
+    ) -> Result<Vec<RecordBatch>> {
+        // 1. Analyze query for filter predicates
         let plan = df.logical_plan();
         let filter_columns = Self::extract_filter_columns(plan);
 
